@@ -17,6 +17,20 @@ LONG_MAX = 2 ** 63 - 1
 STRING_BUF = 8192              # parse_lex.l: static char string_buf[8192]
 
 
+# Behaviour switches that follow proposed repairs once they are applied to the tree (fixes/F14, fixes/F15); set by
+# configure(repo) from the CURRENT parse_tab.y / parse_lex.l, so that the reader models the code as it is now.
+LOGIN_REQUIRED = False         # F14: makeSpec() refuses a specification without a login script
+STRING_BOUND_CHECKED = False   # F15: the lexer refuses a string literal that does not fit string_buf
+
+
+def configure(repo):
+    global LOGIN_REQUIRED, STRING_BOUND_CHECKED
+    y = open(os.path.join(repo, "src/powerman/parse_tab.y")).read()
+    l = open(os.path.join(repo, "src/powerman/parse_lex.l")).read()
+    LOGIN_REQUIRED = re.search(r"prescripts\[PM_LOG_IN\]\s*==\s*NULL\s*\)\s*_errormsg", y) is not None
+    STRING_BOUND_CHECKED = re.search(r"string_buf_ptr\s*>=\s*string_buf\s*\+\s*sizeof\s*\(\s*string_buf\s*\)\s*-\s*1", l) is not None
+
+
 class Refuse(Exception):
     """the real parser refuses this input (err_exit / yyerror): exit status 1"""
     def __init__(self, line, why):
@@ -140,6 +154,8 @@ def lex(data):
                 buf += m.group(0); i = m.end()
             if not closed:
                 raise Refuse(line, "EOF inside string")
+            if STRING_BOUND_CHECKED and len(buf) >= STRING_BUF - 1:
+                raise Refuse(line, "string too long")
             if len(buf) >= STRING_BUF:
                 raise Unsupported("string literal of %d bytes overflows string_buf (finding F15, property C18)" % len(buf))
             z = buf.find(b"\0")                                   # xstrdup(string_buf): C string
@@ -330,7 +346,9 @@ class _Parser:
             nitems += 1
         if nitems == 0:
             self.err()
-        self.expect("END")
+        end = self.expect("END")
+        if LOGIN_REQUIRED and not any(x[0] == "PM_LOG_IN" for x in s.scripts):
+            raise Refuse(end.line, "specification has no login script")
         s.name = name.val
         s.tok1 = self.i
         return s
@@ -462,6 +480,138 @@ def dump(specs, num):
     return out
 
 
+# ---------------------------------------------------------------------------------------------- fingerprint
+# mirror of coq/Model/SpecDigest.v (the Coq side is proved equal to the numbers gen_specs.py writes)
+DG_MOD, DG_MUL = 2305843009213693951, 1000003
+_BLOCK_TAG = {"foreachplug": 6, "foreachnode": 7, "ifon": 8, "ifoff": 9}
+
+
+def _dg_fold(l):
+    acc = 0
+    for x in l:
+        acc = (acc * DG_MUL + x + 7) & DG_MOD
+    return acc
+
+
+def _ser_text(t):
+    return [len(t)] + list(t)
+
+
+def _ser_z(z):
+    return [0, 0] if z == 0 else ([1, z] if z > 0 else [2, -z])
+
+
+def _ser_interps(il):
+    out = [len(il)]
+    for (code, r) in il:
+        out += _ser_z(code) + _ser_text(r)
+    return out
+
+
+def _ser_stmt(st):
+    """st: plain tuple, see plain_of_tree / plain_of_dump"""
+    k = st[0]
+    if k == "send":
+        return [1] + _ser_text(st[1])
+    if k == "expect":
+        return [2] + _ser_text(st[1])
+    if k == "setplugstate":
+        return [3] + ([0] if st[1] is None else [1] + _ser_text(st[1])) + _ser_z(st[2]) + _ser_z(st[3]) + _ser_interps(st[4])
+    if k == "setresult":
+        return [4] + _ser_z(st[1]) + _ser_z(st[2]) + _ser_interps(st[3])
+    if k == "delay":
+        return [5] + _ser_z(st[1])
+    out = [_BLOCK_TAG[k], len(st[1])]
+    for x in st[1]:
+        out += _ser_stmt(x)
+    return out
+
+
+def digest_plain(sp):
+    """sp = (name, timeout, ping, plugs|None, [(idx, [stmt])])"""
+    name, tmo, ping, plugs, scripts = sp
+    hdr = _ser_text(name) + _ser_z(tmo) + _ser_z(ping)
+    if plugs is None:
+        hdr += [0]
+    else:
+        hdr += [1, len(plugs)]
+        for pl in plugs:
+            hdr += _ser_text(pl)
+    acc = _dg_fold(hdr)
+    for (idx, body) in scripts:
+        l = _ser_z(idx) + [len(body)]
+        for st in body:
+            l += _ser_stmt(st)
+        acc = (acc + _dg_fold(l)) & DG_MOD
+    return acc
+
+
+def plain_of_tree(s, num):
+    def stmts(l):
+        out = []
+        for st in l:
+            if st.kind in ("send", "expect"):
+                out.append((st.kind, st.text))
+            elif st.kind == "delay":
+                out.append(("delay", st.usec))
+            elif st.kind == "setplugstate":
+                out.append(("setplugstate", st.lit, st.plug_mp, st.stat_mp, [(num[n], r) for (n, r) in st.interps]))
+            elif st.kind == "setresult":
+                out.append(("setresult", st.plug_mp, st.stat_mp, [(num[n], r) for (n, r) in st.interps]))
+            else:
+                out.append((st.kind, stmts(st.body)))
+        return out
+    return (s.name, s.timeout, s.ping, s.plugs, [(num[pm], stmts(b)) for (pm, b, _, _, _) in s.scripts])
+
+
+def plain_of_dump(lines):
+    """the specifications of a dump (either side's format, nsub fields ignored) as plain tuples"""
+    unhex = lambda h: b"" if h == "-" else bytes.fromhex(h)
+    pos = [0]
+
+    def interps(n):
+        out = []
+        for _ in range(n):
+            w = lines[pos[0]].split(); pos[0] += 1
+            assert w[1] == "INTERP"
+            out.append((int(w[2]), unhex(w[3])))
+        return out
+
+    def block(n):
+        out = []
+        for _ in range(n):
+            w = lines[pos[0]].split(); pos[0] += 1
+            k = w[1]
+            if k == "SEND":
+                out.append(("send", unhex(w[2])))
+            elif k == "EXPECT":
+                out.append(("expect", unhex(w[2])))
+            elif k == "DELAY":
+                out.append(("delay", int(w[2])))
+            elif k == "SETPLUGSTATE":
+                out.append(("setplugstate", None if w[2] == "none" else unhex(w[2][1:]), int(w[3]), int(w[4]), interps(int(w[5]))))
+            elif k == "SETRESULT":
+                out.append(("setresult", int(w[2]), int(w[3]), interps(int(w[4]))))
+            else:
+                out.append((k.lower(), block(int(w[2]))))
+        return out
+    specs = []
+    while pos[0] < len(lines):
+        w = lines[pos[0]].split(); pos[0] += 1
+        assert w[0] == "SPEC", w
+        name, tmo, ping = unhex(w[1]), int(w[2]), int(w[3])
+        w = lines[pos[0]].split(); pos[0] += 1
+        plugs = None if w[1] == "none" else [unhex(h) for h in w[2:]]
+        scripts = []
+        while lines[pos[0]].startswith("SCRIPT "):
+            w = lines[pos[0]].split(); pos[0] += 1
+            scripts.append((int(w[1]), block(int(w[2]))))
+        assert lines[pos[0]] == "ENDSPEC"
+        pos[0] += 1
+        specs.append((name, tmo, ping, plugs, scripts))
+    return specs
+
+
 def read_numbers(repo):
     """PM_* script indices and the ST_/RT_ enum values from the CURRENT headers (plain #define / enum reading)"""
     num = {}
@@ -495,6 +645,7 @@ def read_numbers(repo):
 
 if __name__ == "__main__":
     repo = os.environ.get("VERIF_REPO", "/repo")
+    configure(repo)
     num = read_numbers(repo)
     for f in sys.argv[1:]:
         try:
